@@ -15,13 +15,9 @@ func VerifC18SocketState(st *SocketServer) (ltype string, network string, secure
 	return ltype, network, st.secure
 }
 
-// VerifC18HttpState exposes HttpServer's secure flag and whether a TLS config was installed on the http.Server.
-func VerifC18HttpState(ws *HttpServer) (secure bool, tlsCfg bool, started bool) {
-	if ws.server != nil {
-		started = true
-		tlsCfg = ws.server.TLSConfig != nil
-	}
-	return ws.secure, tlsCfg, started
+// VerifC18HttpState exposes HttpServer's secure flag (it selects ServeTLS / Serve and is handed to AcceptConnection).
+func VerifC18HttpState(ws *HttpServer) bool {
+	return ws.secure
 }
 
 // VerifC18PacketState exposes the packet server's listener type and the packet connection's network.
